@@ -370,6 +370,10 @@ func init() {
 		fr.assume(term.BVCmp("bvult", t, term.BVConstU(1<<60, 64)))
 		if ps.lastClock != nil {
 			fr.assume(term.BVCmp("bvuge", t, ps.lastClock))
+			if ps.clockMaxStep > 0 {
+				// harness opted into a paced clock: readings not separated by zz.Pause are close
+				fr.assume(term.BVCmp("bvule", t, term.BVBin("bvadd", ps.lastClock, term.BVConstU(ps.clockMaxStep, 64))))
+			}
 		}
 		ps.lastClock = t
 		return timeValue(fr, symv{t, types.Int64})
